@@ -139,3 +139,66 @@ func TestRegressRelationDanglingEdge(t *testing.T) {
 	c := &search.Constraint{Permanode: &search.PermanodeConstraint{Relation: &search.RelationConstraint{Relation: "child", Any: &search.Constraint{CamliType: schema.TypePermanode}}}}
 	wantSet(t, "child any with dangling member", runQ(t, ix, c, search.Unsorted), p0.RefS)
 }
+
+// fix 8ddd7cb: sort=map. (a) 5 matches, 1 with a location, limit 3 (and any
+// unlimited query with a located match) never returned: bestByLocation looped
+// forever holding the index read lock; (b) without any located match the limit
+// was ignored. Each query runs under a deadline so that a regression fails
+// instead of hanging the run.
+func TestRegressMapSortLimit(t *testing.T) {
+	if evid.Replaying() {
+		t.Skip()
+	}
+	w := vw.New()
+	var all []string
+	for i, k := range []string{"p0", "p1", "p2", "p3", "p4"} {
+		p := w.AddPermanode(k)
+		all = append(all, p.RefS)
+		w.AddClaim(p, day(i), "add-attribute", "tag", "foo")
+		if i == 0 {
+			w.AddClaim(p, day(10), "set-attribute", "latitude", "10.5")
+			w.AddClaim(p, day(11), "set-attribute", "longitude", "20.5")
+		}
+	}
+	ix, err := w.Build()
+	if err != nil {
+		t.Fatal(err)
+	}
+	run := func(c *search.Constraint, limit int) []string {
+		type ans struct {
+			refs []string
+			err  error
+		}
+		ch := make(chan ans, 1)
+		go func() {
+			res, err := ix.H.Query(context.Background(), &search.SearchQuery{Constraint: c, Sort: search.MapSort, Limit: limit})
+			var refs []string
+			if err == nil {
+				for _, b := range res.Blobs {
+					refs = append(refs, b.Blob.String())
+				}
+			}
+			ch <- ans{refs, err}
+		}()
+		select {
+		case a := <-ch:
+			if a.err != nil {
+				t.Fatalf("C08 violated (regression map sort): %v", a.err)
+			}
+			return a.refs
+		case <-time.After(60 * time.Second):
+			t.Fatalf("C08 violated (regression map sort): query with limit %d did not return within 60s", limit)
+		}
+		return nil
+	}
+	located := &search.Constraint{Permanode: &search.PermanodeConstraint{Attr: "tag", Value: "foo"}} // permanode constraint: locations are looked up
+	wantSet(t, "map unlimited", run(located, -1), all...)
+	wantSet(t, "map limit 5", run(located, 5), all...)
+	if got := run(located, 3); len(got) == 0 || len(got) > 3 || dupOf(got) != "" {
+		t.Fatalf("C08 violated (regression map sort): limit 3 with one located match returned %v", got)
+	}
+	plain := &search.Constraint{CamliType: schema.TypePermanode} // no location is ever looked up
+	if got := run(plain, 2); len(got) != 2 || dupOf(got) != "" {
+		t.Fatalf("C08 violated (regression map sort): limit 2 without located matches returned %d results", len(got))
+	}
+}
